@@ -8,8 +8,9 @@ import (
 )
 
 // RangeMap replaces `range m` over a map in instrumented packages: while a
-// scheduler is active the keys are visited in a stable order (so that a run is
-// a pure function of its schedule), skipping keys deleted meanwhile; entries
+// scheduler is active the keys are visited in an order that is a pure function
+// of the schedule (sorted, or a seeded permutation of that when the schedule has
+// a map seed), skipping keys deleted meanwhile; entries
 // added during the iteration are not visited (allowed by the Go spec).
 func RangeMap[K comparable, V any](m map[K]V) iter.Seq2[K, V] {
 	return func(yield func(K, V) bool) {
@@ -21,7 +22,25 @@ func RangeMap[K comparable, V any](m map[K]V) iter.Seq2[K, V] {
 			}
 			return
 		}
-		for _, k := range SortedKeys(m) {
+		keys := SortedKeys(m)
+		if s := active.Load(); s != nil {
+			if seed := s.mapSeed.Load(); seed != 0 && len(keys) > 1 {
+				// Go randomises map iteration: the visiting order is one more
+				// decision of the schedule (a permutation drawn from the map seed
+				// and the number of this iteration within the run)
+				x := seed + s.mapIter.Add(1)*0x9e3779b97f4a7c15
+				for i := len(keys) - 1; i > 0; i-- {
+					x += 0x9e3779b97f4a7c15
+					z := x
+					z = (z ^ (z >> 30)) * 0xbf58476d1ce4e5b9
+					z = (z ^ (z >> 27)) * 0x94d049bb133111eb
+					z ^= z >> 31
+					j := int(z % uint64(i+1))
+					keys[i], keys[j] = keys[j], keys[i]
+				}
+			}
+		}
+		for _, k := range keys {
 			v, ok := m[k]
 			if !ok {
 				continue
